@@ -8,5 +8,5 @@ import (
 
 func TestReplay(t *testing.T) {
 	Setup()
-	vrt.ReplayMain(map[string]func(){"Harness_try": Harness_try, "Harness_try_small": Harness_try_small, "Harness_try_tail": Harness_try_tail})
+	vrt.ReplayMain(map[string]func(){"Harness_try": Harness_try, "Harness_try_small": Harness_try_small, "Harness_try_tail": Harness_try_tail, "Harness_try_deadline": Harness_try_deadline, "Harness_try_tail_deadline": Harness_try_tail_deadline})
 }
